@@ -67,7 +67,7 @@ func init() {
 		Doc: "Unlocked writer => readers must skip: mergerNotifyPersister rewrites lowerLevelSnapshot of a published stack under the collection lock only, so every segmentStack.Get whose receiver " +
 			"was loaded from a collection section field must pass ReadOptions with SkipLowerLevel == true (the lower level is consulted once, last, through the collection's own reference).",
 		Props: []string{"C17", "C10", "C03"},
-		Floor: 2,
+		Floor: 0,
 		Run:   ruleLock5,
 	})
 }
@@ -417,10 +417,13 @@ func ruleLock1(c *Ctx) []*Ob {
 		for _, a := range fieldAccesses(f, want) {
 			tn := guardedFieldOwner(c, a.Field)
 			kind := guardedTable[tn][a.Field.Name()]
-			if a.Kind == "addr" {
-				continue // address taken for sync/atomic or method call on the field itself
-			}
 			isWrite := a.Write
+			if a.Kind == "addr" {
+				// the address of a lock-guarded field handed to a call (e.g. sync/atomic): the other
+				// accesses are plain loads/stores under the mutex, so this one needs the mutex as well
+				isWrite = true
+				a.Write = true
+			}
 			if kind == guardW && !isWrite {
 				continue
 			}
